@@ -1,6 +1,7 @@
 """Rule results, known-findings matching, evidence writing, verdict lines."""
 import hashlib
 import json
+import re
 import os
 import time
 
@@ -8,6 +9,12 @@ from .facts import VERIF, Broken
 
 EVID = os.environ.get("KQ_EVIDENCE_DIR") or os.path.join(VERIF, "evidence")
 KNOWN = os.path.join(VERIF, "known_findings.jsonl")
+
+
+def norm_key(k):
+    """closure ordinals are positional: `f::{closure#3}` -> `f::{closure}` so that an unrelated closure added
+    earlier in the same function does not turn a listed finding into a new one"""
+    return re.sub(r"\{closure#\d+\}", "{closure}", k)
 
 
 class RuleResult:
@@ -32,7 +39,7 @@ class RuleResult:
         return d
 
     def viol(self, key, where, explain, **kw):
-        d = {"rule": self.rule, "key": "%s|%s" % (self.rule, key), "where": where, "explain": explain}
+        d = {"rule": self.rule, "key": norm_key("%s|%s" % (self.rule, key)), "where": where, "explain": explain}
         d.update(kw)
         self.violations.append(d)
         return d
@@ -68,7 +75,7 @@ def finish(prop, tier, results, t0, explanation, not_decided, level="other", con
            extra_cov=None, assumptions=None, seed=0):
     """Write evidence, print verdict lines, return exit code."""
     known = [k for k in load_known() if k.get("property") == prop]
-    known_keys = {k["key"]: k for k in known if k.get("status") == "known"}
+    known_keys = {norm_key(k["key"]): k for k in known if k.get("status") == "known"}
     for r in results:
         r.check_floor()
     all_v = []
